@@ -19,9 +19,9 @@ class Getset(Instance):
     def __init__(self, name, maxreq, mode):
         Instance.__init__(self, name)
         self.maxreq, self.mode = maxreq, mode
-        self.required_witnesses = ("multi", "single", "unknown") if mode == "names" else ("multi", "single", "no_match")
+        self.required_witnesses = ("multi", "single", "unknown", "overwrite_existing") if mode == "names" else ("multi", "single", "no_match", "overwrite_existing")
         self.bounds = {"archive": "3 samples in the order a1, b, a2, one contig each, 1..3 symbolic bases over all codes 0..15 and 30", "request": (f"every list of 1..{maxreq} names over the 3 samples + 1 unknown name (repeats allowed)" if mode == "names" else "every prefix in {a, a1, b, x, ''}"),
-                       "destination": "-o file and stdout"}
+                       "destination": "-o file (fresh path, or an existing longer file) and stdout"}
 
     def setup(self, e):
         def d_open(e_, c, a):
@@ -75,6 +75,12 @@ class Getset(Instance):
             e.inputs["prefix"] = pf.decode()
         out_path = b"/out/result.fa"
         output = some(S(out_path)) if to_file else none()
+        pre = e.choose(2, "preexisting") if to_file else 0
+        if pre:
+            # the -o path already holds an older, longer result
+            fd = models_io.FileData(); fd.data[:] = [Int(8, 0, ord("X"))] * 64
+            e.fs.files[out_path] = fd
+            e.witness("overwrite_existing")
         r = e.call_fn(CLI, "getset_command", [S(b"/in/archive.agc"), samples, prefix, output, Int(32, 0, 0)])
         if self.mode == "names":
             e.inputs["request"] = [n.decode() for n in names]
@@ -102,7 +108,7 @@ class Getset(Instance):
 
     def native(self, inp):
         seqs = [inp.get(f"seq{i}", [0]) for i in range(len(NAMES))]
-        return "cli_getset", {"seqs": seqs, "request": inp.get("request"), "prefix": inp.get("prefix"), "to_file": bool(inp.get("to_file", 0))}
+        return "cli_getset", {"seqs": seqs, "request": inp.get("request"), "prefix": inp.get("prefix"), "to_file": bool(inp.get("to_file", 0)), "preexisting": bool(inp.get("preexisting", 0))}
 
     def confirm(self, viol, outs):
         return any(("panic" in o or "crash" in o or o.get("ok") is False) for o in outs.values())
